@@ -27,6 +27,28 @@ def Y.asStr : Y → Option String
   | .str s => some s
   | _ => none
 
+/-- what the mapping branch does with a key: `some (name, tagged)` = descend below `name` -/
+def keyKind : Y → Outcome (Option (String × Bool))
+  | .tagged tag kv =>
+    if tag = "!sd" then
+      match kv.asStr with
+      | none => .err .yaml                                  -- YamlInvalidSDTag
+      | some name => .ok (some (name, true))
+    else .ok none                                           -- other tags: kept, not descended
+  | .str name => .ok (some (name, false))
+  | _ => .ok none
+
+/-- "remove tag from sequence": a `!sd`-tagged string item becomes the plain string -/
+def stripItemTag (x : Y) (ps : List String) : Outcome (Y × List String) :=
+  match x with
+  | .tagged tag tv =>
+    if tag = "!sd" then
+      match tv.asStr with
+      | none => .err .yaml
+      | some s => .ok (.str s, ps)
+    else .ok (x, ps)
+  | _ => .ok (x, ps)
+
 /-- `collect_tagged_keys(node, path, paths)`: the node without `!sd` tags on keys and sequence
 items, and the paths pushed, in order. `path` holds the escaped segments from the root. -/
 def collect (path : List String) : Y → Outcome (Y × List String)
@@ -47,52 +69,37 @@ where
   collectM (path : List String) : List (Y × Y) → Outcome (List (Y × Y) × List String)
     | [] => .ok ([], [])
     | (k, v) :: r =>
-      let here : Outcome ((Y × Y) × List String) :=
-        match k with
-        | .tagged tag kv =>
-          if tag = "!sd" then
-            match kv.asStr with
-            | none => .err .yaml                                  -- YamlInvalidSDTag
-            | some name =>
-              match collect (path ++ [escapeSeg name]) v with
-              | .ok (v', ps) => .ok ((.str name, v'), ps ++ [joinPath (path ++ [escapeSeg name])])
-              | .err e => .err e
-              | .panic => .panic
-          else .ok ((k, v), [])
-        | .str name =>
-          match collect (path ++ [escapeSeg name]) v with
-          | .ok (v', ps) => .ok ((k, v'), ps)
-          | .err e => .err e
-          | .panic => .panic
-        | _ => .ok ((k, v), [])
-      match here, collectM path r with
-      | .panic, _ => .panic
-      | .err e, _ => .err e
-      | _, .panic => .panic
-      | _, .err e => .err e
-      | .ok (kv', p1), .ok (r', p2) => .ok (kv' :: r', p1 ++ p2)
+      match keyKind k with
+      | .panic => .panic
+      | .err e => .err e
+      | .ok none =>
+        match collectM path r with
+        | .panic => .panic
+        | .err e => .err e
+        | .ok (r', p2) => .ok ((k, v) :: r', p2)
+      | .ok (some (name, tagged)) =>
+        match collect (path ++ [escapeSeg name]) v, collectM path r with
+        | .panic, _ => .panic
+        | .err e, _ => .err e
+        | _, .panic => .panic
+        | _, .err e => .err e
+        | .ok (v', p1), .ok (r', p2) =>
+          -- nested paths first, then the tagged key's own path (D19)
+          .ok (((if tagged then .str name else k), v') :: r',
+               p1 ++ (if tagged then [joinPath (path ++ [escapeSeg name])] else []) ++ p2)
   collectS (path : List String) (i : Nat) : List Y → Outcome (List Y × List String)
     | [] => .ok ([], [])
     | x :: r =>
-      let here : Outcome (Y × List String) :=
-        match collect (path ++ [toString i]) x with
-        | .ok (x', ps) =>
-          match x' with
-          | .tagged tag tv =>
-            if tag = "!sd" then
-              match tv.asStr with
-              | none => .err .yaml
-              | some s => .ok (.str s, ps)                          -- tag stripped
-            else .ok (x', ps)
-          | _ => .ok (x', ps)
-        | .err e => .err e
-        | .panic => .panic
-      match here, collectS path (i+1) r with
-      | .panic, _ => .panic
-      | .err e, _ => .err e
-      | _, .panic => .panic
-      | _, .err e => .err e
-      | .ok (x', p1), .ok (r', p2) => .ok (x' :: r', p1 ++ p2)
+      match collect (path ++ [toString i]) x with
+      | .panic => .panic
+      | .err e => .err e
+      | .ok (x', ps) =>
+        match stripItemTag x' ps, collectS path (i+1) r with
+        | .panic, _ => .panic
+        | .err e, _ => .err e
+        | _, .panic => .panic
+        | _, .err e => .err e
+        | .ok (x'', p1), .ok (r', p2) => .ok (x'' :: r', p1 ++ p2)
 
 /-- YAML value → JSON value (`serde_yaml::to_string` then `serde_yaml::from_str::<JsonValue>`):
 string keys only, no tags left; later duplicates win -/
